@@ -460,7 +460,10 @@ def run_seq(ctx, res, tag: str, which: set, focus: str, n_quick: int, n_thorough
                 res.failures.append(Failure(kind, what, {"rabbit_history": jsonable(h), "where": where}, None))
     bad, mo = runmodel.run_cases(tag, "Sched AmqpSrv RabbitBroker", "rabbit_case", cases, shard=50)
     for i in bad:
-        res.mismatches.append({"relation": "rabbit_obs", "coq": cases[i][0][:4000], "impl_obs": cases[i][1][:300], "model_obs": (mo.get(i) or [])[:300]})
+        impl, mod = cases[i][1], (mo.get(i) or [])
+        k = next((j for j in range(min(len(impl), len(mod))) if impl[j] != mod[j]), min(len(impl), len(mod)))
+        res.mismatches.append({"relation": "rabbit_obs", "coq": cases[i][0][:6000], "first_difference_at": k, "op_number": impl[:k].count(-40),
+                               "impl_obs": impl[max(0, k - 60):k + 40], "model_obs": mod[max(0, k - 60):k + 40]})
     res.model_cases += len(cases)
     res.traces_validated += len(cases) - len(bad)
     res.relations.append("rabbit_obs: per call of a sequential history on the RabbitMQ client over the fake server - every AMQP method "
